@@ -88,6 +88,37 @@ func init() {
 		Monitors: []Monitor{monitorTopK("redis")}, OpName: topkOpName,
 		Nontrivial: func(r *RunResult) bool { return countOps(r, tkInsert) >= 4 },
 		Rule: "as topk-mem, against the Redis-backed Top-K on miniredis", Quick: 120, Thorough: 2500})
+	mkPair := func(a, b func() Machine) func() Machine {
+		return func() Machine { return &pairMachine{a: a(), b: b()} }
+	}
+	registry["C08"] = []Suite{
+		{Name: "pair-bloom", NewMachine: mkPair(func() Machine { return &bloomMem{} }, func() Machine { return &bloomRedis{} }), Gen: genC01,
+			Monitors: []Monitor{monitorPair("bloom", bloomOpName)}, OpName: bloomOpName, NoModel: true,
+			Rule: "the same history on the in-memory and the Redis-backed Bloom filter, answers compared step by step", Quick: 80, Thorough: 1500},
+		{Name: "pair-cms", NewMachine: mkPair(func() Machine { return &cmsMem{} }, func() Machine { return &cmsRedis{} }), Gen: genC12,
+			Monitors: []Monitor{monitorPair("cms", cmsOpName)}, OpName: cmsOpName, NoModel: true,
+			Rule: "the same history (updates, merges, queries) on both Count-Min variants", Quick: 80, Thorough: 1500},
+		{Name: "pair-hll", NewMachine: mkPair(func() Machine { return &hllMem{} }, func() Machine { return &hllRedis{} }), Gen: genC06,
+			Monitors: []Monitor{monitorPair("hll", hllOpName), monitorPairHLLCount}, OpName: hllOpName, NoModel: true,
+			Rule: "the same history (updates, merges, counts) on both HyperLogLog variants", Quick: 60, Thorough: 1000},
+		{Name: "pair-hll-count", NewMachine: mkPair(func() Machine { return &hllMem{} }, func() Machine { return &hllRedis{} }), Gen: genC05,
+			Monitors: []Monitor{monitorPair("hll", hllOpName)}, OpName: hllOpName, NoModel: true,
+			Rule: "n distinct updates, Count under all flag combinations on both HyperLogLog variants", Quick: 60, Thorough: 1000},
+		{Name: "pair-cuckoo", NewMachine: mkPair(func() Machine { return &cuckooMem{} }, func() Machine { return &cuckooRedis{} }), Gen: genCuckoo("C02"),
+			Monitors: []Monitor{monitorPair("cuckoo", cuckooOpName)}, OpName: cuckooOpName, NoModel: true,
+			Rule: "the same history with the same random draws on both cuckoo variants, compared until the first relocation", Quick: 40, Thorough: 800},
+		{Name: "pair-topk", NewMachine: mkPair(func() Machine { return &topkMem{} }, func() Machine { return &topkRedis{} }), Gen: genC04,
+			Monitors: []Monitor{monitorPair("topk", topkOpName)}, OpName: topkOpName, NoModel: true,
+			Rule: "the same history on both Top-K variants, Values() compared up to ties at the smallest reported count", Quick: 60, Thorough: 1200},
+	}
+	registry["C19"] = []Suite{
+		{Name: "shared-db", NewMachine: newMultiMachine, Gen: genC19,
+			OpName: func(op Tok) string {
+				names := []string{"bloom", "cms", "hll", "cuckoo", "topk"}
+				return names[op.L[0].I()]
+			},
+			Rule: "2-8 live Redis-backed structures of mixed kinds in one database, interleaved histories incl. re-attachment and import under new keys; each structure's answers diffed against its model run alone", Quick: 60, Thorough: 1500},
+	}
 	registry["C05"] = []Suite{
 		{Name: "hll-mem", NewMachine: func() Machine { return &withCodec{genericMachine: &hllMem{}} }, Gen: genC05,
 			Monitors: []Monitor{monitorHLL("mem", "C05")}, OpName: hllOpName,
